@@ -103,15 +103,15 @@ def ckw(kw):
     return clist([cpair(cstr(a), cvalue(v)) for a, v in kw])
 
 
-def cargs(params, argspecs, proj):
+def cargs(params, argspecs, keys):
+    """arguments as the model sees them: raw data + plain projections, all computed by the harness"""
     items = []
     for p in params:
         if argspecs.get(p) is None:
             items.append(cpair(cstr(p), "None"))
         else:
-            pr = proj.get(p, {})
-            ok = [(k, v) for k, v in sorted(pr.items()) if "exc" not in v and "unknown" not in v]
-            items.append(cpair(cstr(p), "(Some %s)" % clist([cpair(cstr(k), cvalue(v)) for k, v in ok])))
+            pr = ref_entries(argspecs[p], keys.get(p, ()))
+            items.append(cpair(cstr(p), "(Some %s)" % clist([cpair(cstr(k), cvalue(v)) for k, v in sorted(pr.items())])))
     return clist(items)
 
 
@@ -272,7 +272,7 @@ def gen_wrapper_cases(ctx, S):
 
 def annotation_kind(ann):
     a = (ann or "").replace(" ", "")
-    for k in ("BDAddress", "ChannelMap", "EsbNodeAddress", "NodeAddress"):
+    for k in ("BDAddress", "ChannelMap", "EsbNodeAddress", "NodeAddress", "Endianness", "Modulation"):
         if a == k:
             return k
     if a in ("List[int]", "list"):
@@ -291,9 +291,8 @@ def annotation_kind(ann):
 def gen_arg(rng, S, f, p, mode):
     """argument spec for parameter p of factory f (dict from the translator)"""
     kind = annotation_kind(p.get("ann"))
-    ops = [o for o in f["ops"] if p["name"] in json.dumps(o["e"].get("proj") or o["e"].get("projdef") or o["e"].get("cond") or [])[:len(p["name"]) + 4]]
-    ops = [o for o in f["ops"] if (o["e"].get("proj") or o["e"].get("projdef") or o["e"].get("cond") or [None])[0] == p["name"]]
-    keys = {(o["e"].get("proj") or o["e"].get("projdef") or o["e"].get("cond"))[1] for o in ops}
+    ops = [o for o in f["ops"] if (expr_ref(o["e"]) or [None])[0] == p["name"]]
+    keys = {expr_ref(o["e"])[1] for o in ops}
     # the protobuf field the parameter lands in (latest version)
     fd = None
     cid = S.bound(f["reg"], f["target"], S.maxv)
@@ -305,12 +304,17 @@ def gen_arg(rng, S, f, p, mode):
             fd = S.resolve(at["path"])
             break
     if kind == "BDAddress":
-        return {"t": "obj", "module": "whad.hub.ble", "cls": "BDAddress",
-                "args": [{"t": "bytes", "v": bytes(rng.randrange(256) for _ in range(6)).hex()}],
+        raw = bytes(rng.choice([rng.randrange(256), 0, 0xff]) for _ in range(6))
+        if rng.random() < 0.6:      # textual form AA:BB:CC:DD:EE:FF, stored reversed
+            a0 = {"t": "str", "v": ":".join("%02x" % b for b in raw)}
+        else:                       # 6 raw bytes, stored as they are
+            a0 = {"t": "bytes", "v": raw.hex()}
+        return {"t": "obj", "module": "whad.hub.ble", "cls": "BDAddress", "args": [a0],
                 "kwargs": {"random": {"t": "bool", "v": rng.random() < 0.5}}}
     if kind == "ChannelMap":
-        chans = {"lo": [], "zero": [], "hi": list(range(38))}.get(mode) if mode in ("lo", "zero", "hi") else sorted(rng.sample(range(38), rng.randrange(0, 38)))
-        return {"t": "obj", "module": "whad.hub.ble", "cls": "ChannelMap", "args": [{"t": "intlist", "v": chans}]}
+        return {"t": "obj", "module": "whad.hub.ble", "cls": "ChannelMap", "args": [{"t": "intlist", "v": gen_channels(rng, mode)}]}
+    if kind in ("Endianness", "Modulation"):      # IntEnum members of whad.hub.phy
+        return {"t": "obj", "module": "whad.hub.phy", "cls": kind, "args": [{"t": "int", "v": rng.randrange(2 if kind == "Endianness" else 8)}]}
     if kind == "EsbNodeAddress":
         n = {"lo": 1, "zero": 1, "hi": 5}.get(mode, rng.randrange(1, 6))
         return {"t": "obj", "module": "whad.hub.esb", "cls": "EsbNodeAddress",
@@ -321,9 +325,9 @@ def gen_arg(rng, S, f, p, mode):
                 "args": [{"t": "int", "v": val}, {"t": "int", "v": rng.choice([0, 1])}]}
     if kind == "intlist":
         n = {"zero": 0, "lo": 0, "hi": 40}.get(mode, rng.choice([0, 1, 2, 3, 9]))
-        if "ChannelMap().value" in keys:
-            return {"t": "intlist", "v": sorted(rng.sample(range(38), min(n, 38)))}
-        if "bytes()" in keys:
+        if any(o["e"].get("conv", [None])[0] == "chanmap_bytes" for o in ops):
+            return {"t": "intlist", "v": gen_channels(rng, mode)}
+        if "bytes()" in keys or any(o["e"].get("conv", [None])[0] == "bytes_of_ints" for o in ops):
             return {"t": "intlist", "v": [rng.randrange(256) for _ in range(n)]}
         k = fd["ty"]["scalar"] if fd and "scalar" in fd["ty"] else "KU32"
         return {"t": "intlist", "v": [gen_sval(rng, k, "edge" if mode == "hi" else "rand")["i"] for _ in range(n)]}
@@ -351,13 +355,128 @@ def gen_arg(rng, S, f, p, mode):
     return {"t": "int", "v": gen_sval(rng, k, mode)["i"]}
 
 
+def expr_ref(e):
+    """(parameter, key) an op's expression reads, or None for a constant"""
+    for k in ("proj", "projdef", "cond"):
+        if k in e:
+            return e[k][0], e[k][1]
+    if "conv" in e:
+        return e["conv"][1], e["conv"][4]     # the projection the CODE reads through its helper class
+    return None
+
+
 def proj_keys(f):
+    """projections to MEASURE on the live argument objects (differential check of the helpers only:
+    expected values never come from them)"""
     keys = {}
     for o in f["ops"]:
-        e = o["e"].get("proj") or o["e"].get("projdef") or o["e"].get("cond")
-        if e:
-            keys.setdefault(e[0], set()).add(e[1])
+        r = expr_ref(o["e"])
+        if r and not r[1].startswith("records("):
+            keys.setdefault(r[0], set()).add(r[1])
     return {p: sorted(k) for p, k in keys.items()}
+
+
+def gen_channels(rng, mode):
+    """BLE channel lists, the boundary channels 0, 31/32 (byte and word edges), 36, 37 over-represented"""
+    if mode in ("lo", "zero"):
+        return []
+    if mode == "hi":
+        return list(range(38))
+    r = rng.random()
+    if r < 0.35:
+        return [rng.choice([37, 37, 36, 0, 31, 32, 7, 8, 39 - 2])]
+    if r < 0.55:
+        return sorted(set(rng.choice([[0, 37], [36, 37], [31, 32, 37], [32, 33, 34, 35, 36, 37], [37, 5]])))
+    return sorted(rng.sample(range(38), rng.randrange(0, 39)))
+
+
+# -- reference semantics of the helper conversions, independent of the code under verification -------------
+
+def ref_chanmap(channels):
+    m = 0
+    for c in channels:
+        if not 0 <= c < 38:
+            return None
+        m |= 1 << c
+    return {"s": {"x": bytes((m >> (8 * i)) & 0xff for i in range(5)).hex()}}
+
+
+def py_conv(op, raw):
+    if raw is None:
+        return None
+    if op == "chanmap_bytes":
+        return ref_chanmap([s_["i"] for s_ in raw["list"]]) if "list" in raw else None
+    if op == "bdaddr_bytes":
+        b = bytes.fromhex(raw["s"]["x"])
+        return {"s": {"x": b[::-1].hex()}} if len(b) == 6 else None
+    if op == "bytes_of_ints":
+        v = [s_["i"] for s_ in raw["list"]]
+        return {"s": {"x": bytes(v).hex()}} if all(0 <= x < 256 for x in v) else None
+    return None
+
+
+def jv(x):
+    if isinstance(x, bool):
+        return {"s": {"b": x}}
+    if isinstance(x, int):
+        return {"s": {"i": x}}
+    if isinstance(x, (bytes, bytearray)):
+        return {"s": {"x": bytes(x).hex()}}
+    return {"list": [{"i": int(e)} for e in x]}
+
+
+def ref_entries(spec, keys=()):
+    """what an argument IS, computed from the raw data the harness built it from (never from the code's helper
+    classes): raw entries for the conversion operators + the plain projections the factories read"""
+    t = spec["t"]
+    out = {}
+    if t in ("int", "bool"):
+        out[""] = jv(spec["v"])
+        out["bool()"] = jv(bool(spec["v"]))
+    elif t == "bytes":
+        out[""] = jv(bytes.fromhex(spec["v"]))
+        out["bool()"] = jv(bool(spec["v"]))
+    elif t == "intlist":
+        out[""] = jv(list(spec["v"]))
+    elif t == "byteslist":
+        pass
+    elif t == "obj":
+        cls, a = spec["cls"], spec.get("args", [])
+        if cls == "BDAddress":
+            disp = bytes.fromhex(a[0]["v"].replace(":", "")) if a[0]["t"] == "str" else bytes.fromhex(a[0]["v"])[::-1]
+            out["display"] = jv(disp)                    # AA:BB:CC:DD:EE:FF order
+            out[".value"] = jv(disp[::-1])
+            out[".is_public()"] = jv(not spec.get("kwargs", {}).get("random", {}).get("v", False))
+        elif cls == "ChannelMap":
+            out["channels"] = jv(list(a[0]["v"]))
+            r = ref_chanmap(a[0]["v"])
+            if r:
+                out[".value"] = r
+        elif cls == "EsbNodeAddress":
+            out[".value"] = jv(bytes.fromhex(a[0]["v"]))
+        elif cls == "NodeAddress":
+            out[".address"], out[".address_type"] = jv(a[0]["v"]), jv(a[1]["v"])
+        elif cls in ("Endianness", "Modulation"):
+            out[""] = jv(a[0]["v"])
+    for k in keys:
+        if k.startswith("records(") and t in ("byteslist", "tuplelist"):
+            fields = [x.split("=") for x in k[len("records("):-1].split(",")]
+            recs = []
+            for e in spec["v"]:
+                recs.append([[fn, ({"x": e} if t == "byteslist" else {"i": e[int(ix)]})] for fn, ix in fields])
+            out[k] = {"recs": recs}
+    return out
+
+
+def all_keys(f):
+    keys = {}
+    for o in f["ops"]:
+        r = expr_ref(o["e"])
+        if r:
+            keys.setdefault(r[0], set()).add(r[1])
+            if "conv" in o["e"]:
+                keys[r[0]].add(o["e"]["conv"][2])
+    return keys
 
 
 def gen_factory_cases(ctx, S):
@@ -511,9 +630,9 @@ def sentinel_oracle(f, argspecs, res):
             continue
         want = []
         if spec["t"] == "obj":
-            for k, jv in res.get("proj", {}).get(p["name"], {}).items():
-                if "s" in jv:
-                    want.append(jv["s"])
+            for k, jv_ in ref_entries(spec).items():
+                if k.startswith(".") and "s" in jv_ and "b" not in jv_["s"]:
+                    want.append(jv_["s"])
         elif spec["t"] == "int":
             want.append({"i": spec["v"]})
         elif spec["t"] == "bytes":
@@ -609,6 +728,19 @@ def gen_parse_cases(ctx, S, valid_wires):
     return cases
 
 
+def helper_cases():
+    """boundary inputs of the conversion operators: (operator, raw value, module, class, constructor args, projection)"""
+    out = []
+    lists = [[i] for i in range(40)] + [[], list(range(38)), list(range(37)), [0, 37], [31, 32], [36, 37], [7, 8, 15, 16, 23, 24]]
+    for l in lists:
+        out.append(("chanmap_bytes", jv(l), "whad.hub.ble", "ChannelMap", [{"t": "intlist", "v": l}], ".value"))
+    for s_ in ("00:11:22:33:44:55", "ff:ff:ff:ff:ff:ff", "01:00:00:00:00:00", "00:00:00:00:00:80", "AA:bb:CC:dd:EE:0f"):
+        out.append(("bdaddr_bytes", jv(bytes.fromhex(s_.replace(":", ""))), "whad.hub.ble", "BDAddress", [{"t": "str", "v": s_}], ".value"))
+    for b in ("001122334455", "ffffffffff00"):
+        out.append(("bdaddr_bytes", jv(bytes.fromhex(b)[::-1]), "whad.hub.ble", "BDAddress", [{"t": "bytes", "v": b}], ".value"))
+    return out
+
+
 def gen_sequences(ctx, S, wires, fcases):
     """several parse / create calls on ONE hub instance (messages returned by different calls are independent)"""
     rng, out = ctx.rng, []
@@ -650,9 +782,15 @@ def same_value(obs_j, exp_j):
 
 
 def eval_expr(e, argspecs, proj):
-    """value an op carries, from the projections measured on the real argument objects"""
+    """value an op must carry, computed from the RAW argument data by the harness's own reference semantics
+    (`proj` = ref_entries per parameter; nothing here comes from the code's helper classes)"""
     if "const" in e:
         return e["const"]
+    if "conv" in e:
+        op, p, rk, d = e["conv"][:4]
+        if argspecs.get(p) is None:
+            return d
+        return py_conv(op, proj.get(p, {}).get(rk))
     key = "proj" if "proj" in e else "projdef" if "projdef" in e else "cond"
     p, k = e[key][0], e[key][1]
     if argspecs.get(p) is None:
@@ -711,7 +849,8 @@ def factory_oracle(S, f, v, argspecs, res):
     cid = S.bound(f["reg"], f["target"], v)
     cl = S.classes.get(cid, {})
     attrs = {a["name"]: a for a in cl.get("attrs", [])}
-    proj = res.get("proj", {})
+    ak = all_keys(f)
+    proj = {p: ref_entries(sp, ak.get(p, ())) for p, sp in argspecs.items() if sp is not None}
     eff = [o for o in f["ops"] if o["guard"] is None or argspecs.get(o["guard"]) is not None]
     # admissibility of the call: every carried value fits the protobuf field it is bound to
     carried = {}
@@ -768,7 +907,7 @@ def factory_oracle(S, f, v, argspecs, res):
     for p in f["params"]:
         if argspecs.get(p["name"]) is None:
             continue
-        carriers = [op for op in eff if (op["e"].get("proj") or op["e"].get("projdef") or op["e"].get("cond") or [None])[0] == p["name"]]
+        carriers = [op for op in eff if (expr_ref(op["e"]) or [None])[0] == p["name"]]
         if not carriers:
             fails.append(("parameter '%s' flows to no field" % p["name"], "carried", None))
     return fails, adm
@@ -935,9 +1074,28 @@ def run(ctx):
     r1 = C.run_impl("C02.py", req)
     wires = [r["wire"] for r in r1["wrapper"] if "wire" in r] + [r["wire"] for r in r1["factory"] if "wire" in r]
     pcases = corpus_parse + gen_parse_cases(ctx, S, wires)
+    hcases = helper_cases()
     scases = gen_sequences(ctx, S, wires, [c for c in fcases if c[4] in ("all-args", "one-optional", "optionals-absent")])
-    r2 = C.run_impl("C02.py", {"parse": [[v, hx] for v, hx, _k in pcases], "sequence": [[v, steps] for v, steps in scases]})
-    rw, rf, rp, rs = r1["wrapper"], r1["factory"], r2["parse"], r2["sequence"]
+    r2 = C.run_impl("C02.py", {"parse": [[v, hx] for v, hx, _k in pcases], "sequence": [[v, steps] for v, steps in scases],
+                                "helpers": [[m_, c_, a_, k_] for _op, _raw, m_, c_, a_, k_ in hcases]})
+    rw, rf, rp, rs, rh = r1["wrapper"], r1["factory"], r2["parse"], r2["sequence"], r2["helpers"]
+    # the code's helper classes against the harness's reference semantics (they never feed the expected values)
+    helper_bad = []
+    for (op, raw, m_, c_, a_, k_), r in zip(hcases, rh):
+        exp = py_conv(op, raw)
+        got = r.get("v")
+        if not same_value(got, exp):
+            helper_bad.append({"helper": "%s.%s%s" % (m_, c_, k_), "args": a_, "reference": exp, "live": r})
+    for i, (v, dom, fname, argspec, kind) in enumerate(fcases):
+        for p_, pr in rf[i].get("proj", {}).items():
+            ref = ref_entries(argspec[p_]) if argspec.get(p_) else {}
+            for k_, got in pr.items():
+                if k_ in ref and "exc" not in got and not same_value(got, ref[k_]) and len(helper_bad) < 50:
+                    helper_bad.append({"helper": "argument %s%s of %s.%s" % (p_, k_, dom, fname), "args": argspec[p_], "reference": ref[k_], "live": got})
+    ctx.cov["helper_conversions_checked"] = len(hcases)
+    ctx.cov["helper_conversion_mismatches"] = helper_bad[:10]
+    if helper_bad:
+        ctx.log("helper classes disagree with the reference semantics: %d, first %s" % (len(helper_bad), json.dumps(helper_bad[0])[:300]))
     ctx.log("implementation: %d wrapper, %d factory, %d parse cases" % (len(rw), len(rf), len(rp)))
     ctx.cov["evaluations"] = len(rw) + len(rf) + len(rp) + len(rs)
     ctx.cov["traces_validated_against_impl"] = len(rw) + len(rf) + len(rp) + len(rs)
@@ -1022,7 +1180,7 @@ def run(ctx):
     ctx.cov["oracle_failing_inputs"] = n_oracle + n_dup
 
     # ---- 5. correspondence inside Coq --------------------------------------------------------
-    bad_w = bad_f = bad_p = []
+    bad_w = bad_f = bad_p = bad_h = []
     logs, seq_meta = [], []
     corr_err = None
     widx, fidx = [], []
@@ -1037,7 +1195,7 @@ def run(ctx):
                 if (dom, fname) not in fspec:
                     continue
                 params = [p["name"] for p in fspec[(dom, fname)]["params"]]
-                fterms.append("(%s, %s, %s, %s, %s)" % (cnat(v), cstr(dom), cstr(fname), cargs(params, argspec, rf[i].get("proj", {})), ccobs(rf[i])))
+                fterms.append("(%s, %s, %s, %s, %s)" % (cnat(v), cstr(dom), cstr(fname), cargs(params, argspec, all_keys(fspec[(dom, fname)])), ccobs(rf[i])))
                 fidx.append(i)
             pterms = []
             for i, (v, hx, kind) in enumerate(pcases):
@@ -1052,17 +1210,22 @@ def run(ctx):
                     o = last if ("cls" in last or "none" in last) else {"exc": last.get("exc", "?")}
                     seq_terms.append("(%s, %s, %s)" % (cnat(v), "DecodeError" if dec == "DecodeError" else "(Decoded %s)" % cpb(dec), cobs(o)))
                     seq_meta.append((i, k))
+            hterms = []
+            for (op, raw, m_, c_, a_, k_), r in zip(hcases, rh):
+                got = r.get("v")
+                hterms.append("(%s, %s, %s)" % (cstr(op), cvalue(raw), "None" if (got is None or "unknown" in got or "exc" in got) else "(Some %s)" % cvalue(got)))
             n_single = len(pterms)
             pterms += seq_terms
             PRE = PRE0 + intern_defs() + "\nOpen Scope N_scope."
             bad_w, l1 = C.run_cases(PID, "wrap", PRE, "nat * string * string * list (string * value) * cobs", wterms, "chk_w", shard=400, max_chars=380000)
             bad_f, l2 = C.run_cases(PID, "fact", PRE, "nat * string * string * args * cobs", fterms, "chk_f", shard=400, max_chars=380000)
             bad_p, l3 = C.run_cases(PID, "parse", PRE, "nat * decoded * obs", pterms, "chk_p", shard=400, max_chars=380000)
-            logs = l1 + l2 + l3
+            bad_h, l4 = C.run_cases(PID, "conv", PRE, "string * value * option value", hterms, "check_conv", shard=400)
+            logs = l1 + l2 + l3 + l4
         except C.CheckBroken as e:
             corr_err = str(e)
-    ctx.log("correspondence: wrapper %d/%d bad, factory %d/%d bad, parse %d/%d bad%s" % (
-        len(bad_w), len(wcases), len(bad_f), len(fidx), len(bad_p), len(pcases) + len(seq_meta), " ERROR " + corr_err[:300] if corr_err else ""))
+    ctx.log("correspondence: wrapper %d/%d bad, factory %d/%d bad, parse %d/%d bad, conversions %d/%d bad%s" % (
+        len(bad_w), len(wcases), len(bad_f), len(fidx), len(bad_p), len(pcases) + len(seq_meta), len(bad_h), len(hcases), " ERROR " + corr_err[:300] if corr_err else ""))
     ctx.notes += logs[:6]
     for tag, bad, idx, cases in (("wrapper", bad_w, widx, wcases), ("factory", bad_f, fidx, fcases)):
         for b in bad[:4]:
@@ -1103,7 +1266,7 @@ def run(ctx):
                                  "sequence_parse_steps": [len(seq_meta), len([b for b in bad_p if b >= len(pcases)])]}
 
     # ---- 6. verdict -----------------------------------------------------------------------------------
-    broken = (not proofs_ok) or (not wf_ok) or bool(js["errors"]) or bad_w or bad_f or bad_p or corr_err or unexpected_opaque
+    broken = (not proofs_ok) or (not wf_ok) or bool(js["errors"]) or bad_w or bad_f or bad_p or bad_h or helper_bad or corr_err or unexpected_opaque
     if broken and not ctx.violations:
         # search: class-level form of the property on every wrapper case (sentinel instantiation)
         for i, (v, reg, name, kw, kind) in enumerate(wcases):
@@ -1131,6 +1294,9 @@ def run(ctx):
             what, det = "proof obligations of theories/C02: " + detail.splitlines()[0][:200], detail
         elif corr_err:
             what, det = "correspondence could not be evaluated", corr_err
+        elif (bad_h or helper_bad) and not (bad_w or bad_f or bad_p):
+            what = "conversion operators vs the live helper classes (%d disagreements in Coq, %d against the python reference)" % (len(bad_h), len(helper_bad))
+            det, first = json.dumps(helper_bad[:5]), (helper_bad[0] if helper_bad else {"op": "conv", "case": list(hcases[bad_h[0]][:2])})
         else:
             if bad_w:
                 i = widx[bad_w[0]]
